@@ -35,9 +35,11 @@ func pickFraming(r *Run, withDirect bool) framingSpec {
 		b := []byte{0x1e, 0, ',', 0xff, ' '}[g.Int("splitbyte", 5)]
 		return framingSpec{Name: fmt.Sprintf("Split(0x%02x)", b), F: channel.Split(b), Split: int(b), Kind: "split"}
 	case 2:
-		return framingSpec{Name: "Header(application/json)", F: channel.Header("application/json"), Split: -1, Mime: "application/json", Kind: "hdr", OptType: true}
+		m := []string{"application/json", "application/JSON-RPC", "application/json; charset=UTF-8", "application/vnd.Example+json; v=\"2\""}[g.Int("mime", 4)]
+		return framingSpec{Name: "Header(" + m + ")", F: channel.Header(m), Split: -1, Mime: m, Kind: "hdr", OptType: true}
 	case 3:
-		return framingSpec{Name: "StrictHeader(text/x-test)", F: channel.StrictHeader("text/x-test"), Split: -1, Mime: "text/x-test", Kind: "hdr", Strict: true}
+		m := []string{"text/x-test", "Text/X-Test", "application/x-very-long-media-type-name-0123456789-0123456789; param=Value"}[g.Int("mime", 3)]
+		return framingSpec{Name: "StrictHeader(" + m + ")", F: channel.StrictHeader(m), Split: -1, Mime: m, Kind: "hdr", Strict: true}
 	case 4:
 		return framingSpec{Name: `Header("")`, F: channel.Header(""), Split: -1, Mime: "", Kind: "hdr", OptType: true}
 	case 5:
@@ -69,7 +71,7 @@ func fill(n int, seed uint32, avoid int) []byte {
 
 func genLen(r *Run, allowBig bool) int {
 	g := r.Gen
-	w := []int{2, 5, 4, 3, 3, 0}
+	w := []int{2, 5, 4, 3, 3, 0, 1}
 	if allowBig {
 		w[5] = 1
 	}
@@ -84,6 +86,8 @@ func genLen(r *Run, allowBig bool) int {
 		return 8185 + g.Int("len", 14)
 	case 4:
 		return g.Int("len", 700)
+	case 6:
+		return 65530 + g.Int("len", 12) // around 64 KiB
 	}
 	return 1<<20 + 1 + g.Int("len", 1<<21)
 }
